@@ -5,7 +5,7 @@ harness `Actor`s; everything they `yield from` is the repo's code.
 """
 from __future__ import annotations
 
-from simkit.c07_zoo import InvalidScenario, arrivals, check_arr, check_num, lat, ns
+from simkit.c07_zoo import InvalidScenario, arrivals, check_arr, check_num, lat, lossy, ns, rel
 from simkit.c07_drv_flow import dec, flow_cfg, horizon, svc_times
 
 from happysimulator.components.datastore import eviction_policies as EP
@@ -478,8 +478,9 @@ def _mq():
         rd = lat(rng, zero_p=0.0, hi=0.1)
         c = ops_cfg(rng, ["pub", "pub", "pub", "poll", "poll", "reprocess"], marks=[dl, rd])
         c.update(dl=dl, rd=rd, maxr=rng.randint(1, 3), cap=rng.choice([None, 2, 5]), ncons=rng.randint(0, 3),
-                 ack=rng.choice(["ack", "reject", "requeue", "ignore", "mixed"]), dlq_cap=rng.choice([None, 1]),
-                 retention=rng.choice([None, 0.05]))
+                 ack=rng.choice(["ack", "reject", "requeue", "ignore", "ignore", "mixed"]), dlq_cap=rng.choice([None, 1]),
+                 retention=rng.choice([None, 0.05]),
+                 work=[rng.choice([0.0, rel(rng, rd, (0.2, 0.9, 1.0, 1.5, 3.0)), lat(rng, hi=0.05)]) for _ in range(4)])
         return c
 
     def build(z, c):
@@ -491,10 +492,22 @@ def _mq():
         cons = []
         seen = [0]
 
+        work = [check_num(x) for x in (c.get("work") or [0.0])]
+
         def on_delivery(ev):
-            mid = ev.context.get("message_id")
             seen[0] += 1
-            m = mode if mode != "mixed" else ["ack", "reject", "requeue", "ignore"][seen[0] % 4]
+            w = work[seen[0] % len(work)]
+            if w > 0:
+                return slow(ev, w, seen[0])
+            return decide(ev, seen[0])
+
+        def slow(ev, w, k):
+            yield w                      # the consumer works on the message before it answers
+            return decide(ev, k)
+
+        def decide(ev, k):
+            mid = ev.context.get("message_id")
+            m = mode if mode != "mixed" else ["ack", "reject", "requeue", "ignore"][k % 4]
             if m == "ack":
                 q.acknowledge(mid)
             elif m == "reject":
@@ -525,7 +538,7 @@ def _mq():
             z.touch(dlq)
             return dlq.reprocess_all(q) + [z.ev(dlq, "cleanup", {"metadata": {}})]
         spawn(z, c, script)
-        z.horizon_ns = horizon(c, 3 + c["rd"] * (c["maxr"] + 2))
+        z.horizon_ns = horizon(c, 3 + (c["rd"] + max(c.get("work") or [0.0])) * (c["maxr"] + 2))
     return gen, build
 
 
@@ -950,6 +963,8 @@ def _gc():
         c = ops_cfg(rng, ["pause", "work"], n=rng.randint(2, 12), span=3.0)
         c.update(strategy=rng.choice(["stw", "concurrent", "generational"]), pressure=rng.choice([None, 0.1, 0.9]),
                  prime=rng.random() < 0.7, interval=lat(rng, zero_p=0.0, hi=0.5), gpause=lat(rng, hi=0.05))
+        if rng.random() < 0.3:
+            c["gpause"] = rel(rng, c["interval"], (0.5, 1.0, 1.5, 3.0))
         return c
 
     def build(z, c):
